@@ -22,6 +22,7 @@ import (
 	"io"
 	"net"
 	"os"
+	"path/filepath"
 	"strings"
 	"testing"
 
@@ -91,6 +92,11 @@ func certReason(c *c05Case) string {
 	match := p.coversName
 	if c.Host == "127.0.0.1" {
 		match = p.coversAddr
+	}
+	if c.Host == "nohost" {
+		// the URL names no host (tcp://:9000): there is no name any certificate could be matched against,
+		// so only the insecure flag can admit
+		return "no-host-in-url"
 	}
 	if match {
 		return ""
@@ -174,6 +180,9 @@ func start(c *c05Case) (*e2e.Pair, error) {
 	}
 	if c.Host == "localhost" {
 		o.UpstreamHost = "localhost"
+	}
+	if c.Host == "nohost" {
+		o.UpstreamHost = "-"
 	}
 	if c.Preceded {
 		other := "localhost"
@@ -491,6 +500,11 @@ func coreTLS() []*c05Case {
 		add("Good", false, "foreign-forced", true, hs[0])
 		add("Good", false, "own", true, hs[0])
 		add("Untrusted", true, "none", false, hs[0])
+		if !strings.HasPrefix(car, "dns") && !strings.HasPrefix(car, "udp") { // (a host-less udp:// URL has no usable remote address at all)
+			add("Good", false, "none", false, "nohost")
+			add("Untrusted", false, "none", false, "nohost")
+			add("Untrusted", true, "none", false, "nohost")
+		}
 		// a failed first upstream written with the other host spelling must not influence the verification
 		if car == "tcp+tls" || car == "wss" || car == "tcp+starttls" || car == "ws+starttls" {
 			for _, h := range hs {
@@ -584,6 +598,17 @@ func TestVerifC05(t *testing.T) {
 	}
 	rec := vcommon.Open()
 	defer rec.Close()
+	// The machine's own trust store contains the FOREIGN CA (as if the peer's certificate had been issued by a
+	// public authority): a client configured with a CA must still trust only that CA, and a server must still
+	// admit only client certificates of its own CA. (Go reads SSL_CERT_FILE/SSL_CERT_DIR at first use.)
+	if tmp := os.Getenv("VERIF_TMP"); tmp != "" {
+		sys := filepath.Join(tmp, fmt.Sprintf("system-trust-%d.pem", os.Getpid()))
+		if err := os.WriteFile(sys, []byte(e2e.GetC05PKI().CA2), 0644); err == nil {
+			os.Setenv("SSL_CERT_FILE", sys)
+			os.Setenv("SSL_CERT_DIR", filepath.Join(tmp, "no-such-dir"))
+			rec.Seen("system_trust_store", "contains the foreign CA only")
+		}
+	}
 	if rec.Replay != nil {
 		var c c05Case
 		if err := json.Unmarshal(rec.Replay, &c); err != nil {
@@ -596,7 +621,7 @@ func TestVerifC05(t *testing.T) {
 	if rec.Thorough() {
 		tls = allTLS()
 		for _, c := range coreTLS() {
-			if c.Preceded {
+			if c.Preceded || c.Host == "nohost" {
 				tls = append(tls, c)
 			}
 		}
